@@ -47,6 +47,8 @@ pub struct Sh {
     /// ordered log of hook calls of this dispatch ("bs", "bhe", "pe"), shared by all actors
     pub seq: RefCell<Option<Rc<RefCell<Vec<(usize, &'static str)>>>>>,
     pub faults_on: Cell<bool>,
+    /// child index at which the last injected register fault struck
+    pub fail_at: Cell<usize>,
     /// composite: the transient child answers Remove the next time it fires
     pub child_remove: Cell<bool>,
 }
@@ -244,6 +246,7 @@ impl<const L: bool> EventSource for Scr<L> {
             // fault point before each child registration: earlier children stay registered
             if self.fault() {
                 bump(&self.sh.reg_fail);
+                self.sh.fail_at.set(k);
                 return Err(injected());
             }
             self.subs[k].register(poll, tf)?;
@@ -394,6 +397,14 @@ pub struct RA {
     pub bs0: u32,
     pub bhe0: u32,
     pub pe0: u32,
+    pub fail0: u32,
+    /// faults hit by handle operations (not by the loop's own post-action calls) on this actor
+    pub op_fail: u32,
+    pub op_fail0: u32,
+    /// an enable() of this disabled source failed and nothing has succeeded on it since: it is still disabled
+    pub enable_failed: bool,
+    /// removed, or disabled-with-failed-enable, when the current dispatch began
+    pub dead0: bool,
     pub life_owed: bool,
     pub synth_owed: Option<u8>,
     pub synth_owed_at_start: Option<u8>,
@@ -521,6 +532,11 @@ impl RCtx {
             bs0: 0,
             bhe0: 0,
             pe0: 0,
+            fail0: 0,
+            op_fail: 0,
+            op_fail0: 0,
+            enable_failed: false,
+            dead0: false,
             life_owed: false,
             synth_owed: None,
             synth_owed_at_start: None,
@@ -541,6 +557,7 @@ impl RCtx {
         let stats_before = self.h.verif_stats();
         let table_before = epoll::table(self.epfd);
         let fails_before = sh.reg_fail.get();
+        let mut retried = false;
         let res: Result<RegistrationToken, String> = match spec {
             Spec::Scr { life, nsubs, timer } => {
                 ra.pend = vec![false; nsubs as usize];
@@ -558,20 +575,18 @@ impl RCtx {
                 };
                 if life {
                     let src: Scr<true> = Scr { id, subs, timer: tm, sh: sh.clone() };
-                    self.h
-                        .insert_source(src, move |k, _, ctx: &mut RCtx| {
-                            let _g = &guard;
-                            ctx.on_cb(id, k)
-                        })
-                        .map_err(|e| format!("{:?}", e.error))
+                    let r = self.h.insert_source(src, move |k, _, ctx: &mut RCtx| {
+                        let _g = &guard;
+                        ctx.on_cb(id, k)
+                    });
+                    self.maybe_retry(r, id, &sh, fails_before, &mut retried)
                 } else {
                     let src: Scr<false> = Scr { id, subs, timer: tm, sh: sh.clone() };
-                    self.h
-                        .insert_source(src, move |k, _, ctx: &mut RCtx| {
-                            let _g = &guard;
-                            ctx.on_cb(id, k)
-                        })
-                        .map_err(|e| format!("{:?}", e.error))
+                    let r = self.h.insert_source(src, move |k, _, ctx: &mut RCtx| {
+                        let _g = &guard;
+                        ctx.on_cb(id, k)
+                    });
+                    self.maybe_retry(r, id, &sh, fails_before, &mut retried)
                 }
             }
             Spec::Comp => {
@@ -612,7 +627,11 @@ impl RCtx {
                 }
             }
             Err(e) => {
-                let injected_now = sh.reg_fail.get() > fails_before;
+                let injected_now = sh.reg_fail.get() > fails_before + retried as u32;
+                if retried && !injected_now {
+                    self.violate(&["C15"], "retry-failed", &[], format!("the source handed back by a failed insertion of {spec:?} (nothing of it left in the poller) could not be inserted again: {e}"));
+                }
+                let injected_now = injected_now || retried;
                 ra.alive = false;
                 ra.enabled = false;
                 ra.rejected = true;
@@ -633,7 +652,9 @@ impl RCtx {
                     if stats_before.lifecycle != stats_after.lifecycle {
                         self.violate(&["C15", "C14"], "failed-insert-leaks-lifecycle-entry", &[], format!("lifecycle set changed across a failed insertion: {:?} -> {:?}", stats_before.lifecycle, stats_after.lifecycle));
                     }
-                    if stats_before.timers.len() != stats_after.timers.len() {
+                    // (a source that was registered twice by a retry registered its timer child twice:
+                    // the first wheel entry is the composite's own business)
+                    if stats_before.timers.len() != stats_after.timers.len() && !retried {
                         self.violate(&["C15"], "failed-insert-leaks-timer", &[], format!("timer heap grew from {} to {} entries across a failed insertion", stats_before.timers.len(), stats_after.timers.len()));
                     }
                     if table_before != table_after {
@@ -647,6 +668,38 @@ impl RCtx {
         }
         self.m.push(ra);
         self.rt.push(rt);
+    }
+
+    /// C15 "the insertion can be retried": when an injected fault rejected the source before any of
+    /// its fd children was registered (so nothing of it is left in the poller), the very source the
+    /// InsertError hands back may be inserted again (a free choice). The second attempt is an
+    /// ordinary insertion: it succeeds unless a fault is injected again, and the source then
+    /// behaves like any other (in particular its timer child is armed under the new registration).
+    fn maybe_retry<const L: bool>(
+        &mut self,
+        r: Result<RegistrationToken, calloop::InsertError<Scr<L>>>,
+        id: usize,
+        sh: &Rc<Sh>,
+        fails_before: u32,
+        retried: &mut bool,
+    ) -> Result<RegistrationToken, String> {
+        match r {
+            Ok(t) => Ok(t),
+            Err(e) => {
+                let injected_now = sh.reg_fail.get() > fails_before;
+                if injected_now && sh.fail_at.get() == 0 && explore::choose(2, Kind::Free) == 1 {
+                    *retried = true;
+                    self.clause("insert-retried");
+                    self.decoded.push(format!("  retry insertion of the handed-back source {id}"));
+                    let src = e.inserted;
+                    self.h
+                        .insert_source(src, move |k, _, ctx: &mut RCtx| ctx.on_cb(id, k))
+                        .map_err(|e| format!("{:?}", e.error))
+                } else {
+                    Err(format!("{:?}", e.error))
+                }
+            }
+        }
     }
 
     // ---------------------------------------------------------------- menus
@@ -1033,6 +1086,7 @@ impl RCtx {
                 }
                 if faulted {
                     a.loose = true;
+                    a.op_fail += 1;
                     self.any_fault = true;
                 }
             }
@@ -1065,8 +1119,10 @@ impl RCtx {
                     a.disturbed = true;
                 }
                 if faulted {
+                    a.enable_failed = matches!(op, ROp::Enable(_)) && !a.enabled && !a.loose && r.is_err();
                     a.loose = true;
                     a.broken = true;
+                    a.op_fail += 1;
                     self.any_fault = true;
                     self.clause("failed-registration-call");
                     if r.is_ok() {
@@ -1081,6 +1137,7 @@ impl RCtx {
                         _ => {}
                     }
                     let a = &mut self.m[i];
+                    a.enable_failed = false;
                     if r.is_ok() {
                         match op {
                             ROp::Disable(_) => a.enabled = false,
@@ -1134,6 +1191,9 @@ impl RCtx {
             a.disturbed = false;
             a.shifted_in_batch = false;
             a.bs0 = sh.bs.get();
+            a.fail0 = sh.reg_fail.get();
+            a.op_fail0 = a.op_fail;
+            a.dead0 = !a.alive || a.enable_failed;
             a.bhe0 = sh.bhe.get();
             a.pe0 = sh.pe.get();
             a.synth_seen = false;
@@ -1160,6 +1220,18 @@ impl RCtx {
     pub fn post_dispatch(&mut self, res: &Result<(), String>, waits: &[seqhooks::WaitRec]) {
         self.in_dispatch = false;
         self.idle_phase = false;
+        // a registration call made by the loop for a post-action was made to fail: the error is
+        // reported by this dispatch and that source is left half-way (its own business)
+        for i in 0..self.m.len() {
+            let by_ops = self.m[i].op_fail - self.m[i].op_fail0;
+            if self.rt[i].sh.reg_fail.get() > self.m[i].fail0 + by_ops {
+                self.m[i].broken = true;
+                self.m[i].loose = true;
+                self.any_fault = true;
+                self.expect_err = true;
+                self.clause("failed-registration-call");
+            }
+        }
         let ok = res.is_ok();
         self.clause("dispatch-end");
         if let Err(e) = res {
@@ -1220,6 +1292,14 @@ impl RCtx {
                                 format!("lifecycle source {i}: before_handle_events iterator yielded sub-ids {seen:?}, expected exactly the real polled events {want:?}"));
                         }
                     }
+                } else if (a.loose || a.broken) && self.m[i].spec == a.spec && (dbs > 1 || dbhe > 1 || (a.dead0 && (dbs != 0 || dbhe != 0))) {
+                    // After a failed registration call the source's own registration state is its
+                    // business, but it is still one source: never more than one call of each hook per
+                    // dispatch, and none at all once it is removed or while it is still disabled
+                    // because the enable() that would have brought it back returned an error.
+                    let state = if !a.dead0 { "after failed call" } else if !a.alive { "removed" } else { "disabled (enable failed)" };
+                    self.violate(&["C14", "C15"], "lifecycle-after-failed-call", &[("state", state.into())],
+                        format!("lifecycle source {i} ({state}) got before_sleep {dbs}x / before_handle_events {dbhe}x in one dispatch (lifecycle-set multiplicity now {dup})"));
                 } else if !a.life_owed && !a.loose && !a.broken && !a.disturbed && (dbs != 0 || dbhe != 0) && self.m[i].spec == a.spec {
                     // disabled / removed / rejected sources receive neither
                     let why = if a.rejected { "rejected" } else if !a.alive { "removed" } else { "disabled" };
@@ -1317,6 +1397,25 @@ impl RCtx {
             }
             if !a.alive && sh.registered.get() && !self.any_fault {
                 self.violate(&["C09", "C16"], "removed-but-registered", &[], format!("source {i} was removed but never unregistered"));
+            }
+        }
+        // a timer child of an inserted, enabled source is armed under that source's current registration
+        for i in 0..self.m.len() {
+            let a = &self.m[i];
+            if let (Spec::Scr { timer: true, .. }, true, true, false, false) = (a.spec, a.alive, a.enabled, a.loose, a.broken) {
+                if let Some(key) = self.rt[i].sh.reg_key.get() {
+                    let me = calloop::verif::key_to_fields(key);
+                    let mine = stats.timers.iter().filter(|t| {
+                        let f = calloop::verif::key_to_fields(t.1);
+                        (f.0, f.1) == (me.0, me.1)
+                    }).count();
+                    self.clause("timer-child-armed");
+                    if mine != 1 {
+                        let keys: Vec<_> = stats.timers.iter().map(|t| calloop::verif::key_to_fields(t.1)).collect();
+                        self.violate(&["C15", "C05"], "timer-child-not-armed", &[("entries", mine.to_string())],
+                            format!("source {i} is inserted and enabled with an armed timer child, but the timer heap holds {mine} entries for its registration {me:?} (heap tokens: {keys:?}): its timeout would never be delivered"));
+                    }
+                }
             }
         }
         if stats.pending_action != PostAction::Continue {
